@@ -28,6 +28,7 @@ type c15Mod struct {
 }
 
 type c15Imp struct {
+	As     string   `json:"spelled,omitempty"` // how the import statement spells the name (库/丁 for 库-丁)
 	Target string   `json:"target"`          // module name or "@JSON" / "@无此库"
 	Items  []string `json:"items,omitempty"` // selective list (nil = all)
 }
@@ -164,6 +165,9 @@ func c15Source(m *c15Mod, isMain bool, mainStmts []string) string {
 	var sb strings.Builder
 	for _, imp := range m.Imports {
 		q := "“" + imp.Target + "”"
+		if imp.As != "" {
+			q = "“" + imp.As + "”"
+		}
 		if strings.HasPrefix(imp.Target, "@") {
 			q = "《" + imp.Target + "》"
 		}
@@ -387,6 +391,19 @@ func runC15(t *zsim.Tape, cfg *hlib.Config) *hlib.Outcome {
 			victim.Damage = "directory-in-place-of-file"
 		case 9:
 			victim.Damage = "not-utf8"
+		}
+	}
+	// a nested module may be written with slashes by everybody who imports it (库/丁 for 库-丁):
+	// the same file, the same module, still loaded once
+	for _, m := range sc.Mods {
+		if strings.Contains(m.Name, "-") && t.Draw(3) == 2 {
+			for _, im := range append([]*c15Mod{main}, sc.Mods...) {
+				for i := range im.Imports {
+					if im.Imports[i].Target == m.Name {
+						im.Imports[i].As = strings.ReplaceAll(m.Name, "-", "/")
+					}
+				}
+			}
 		}
 	}
 	// reference model run
